@@ -717,7 +717,7 @@ bool BarnettSmartVTMF_dlog::CP_Verify
 		// verify the proof of knowledge (equality of discrete logarithms) [CaS97]
 		if (fpowm_usage)
 		{
-			if (!mpz_cmp(g, gg))
+			if (mpz_cmp(g, gg))
 				throw false;
 			tmcg_mpz_fpowm(fpowm_table_g, a, gg, r, p);
 		}
@@ -728,7 +728,7 @@ bool BarnettSmartVTMF_dlog::CP_Verify
 		mpz_mod(a, a, p);
 		if (fpowm_usage)
 		{
-			if (!mpz_cmp(h, hh))
+			if (mpz_cmp(h, hh))
 				throw false;
 			tmcg_mpz_fpowm(fpowm_table_h, b, hh, r, p);
 		}
